@@ -3,6 +3,7 @@
    Gen/DecsIR.v, regenerated from /repo/decorations.go on every run. *)
 From Coq Require Import List Arith.
 Import ListNotations.
+From DV Require Import Model.Tree Model.Restore Model.Cursor Gen.CursorSrc Proofs.CursorProofs.
 From DV Require Import Model.SliceHeap Proofs.SliceProofs Gen.DecsIR.
 
 (* Table obligation: every translated method is a safe chain with the right atoms. *)
@@ -53,7 +54,19 @@ Example C19_nonvacuous :
     = Some ([8; 9; 1; 2; 55; 2], [55; 2; 99; 99]).
 Proof. split; [apply Inv_init|]. vm_compute. repeat split. Qed.
 
+
+(* "what All returns is what is rendered": the loop that renders a decoration list
+   (FileRestorer.applyDecorations) is translated on every run and proved to compute the model's
+   apply_decs -- element by element, in list order, each "\n" one line break, each // or /* comment
+   once at the cursor, anything else nothing *)
+Theorem C19_applyDecorations_source_computes_the_model :
+  forall s id kind name isend ds,
+    let env' := exec_list applyDecorations_src (decs_env s kind id name isend ds) in
+    e_rs env' = apply_decs s id kind name isend ds /\ e_stuck env' = false.
+Proof. exact applyDecorations_source_is_model. Qed.
+
 Print Assumptions C19_methods_ok.
 Print Assumptions C19_refine_list.
 Print Assumptions C19_frame.
 Print Assumptions C19_all_returns_list.
+Print Assumptions C19_applyDecorations_source_computes_the_model.
